@@ -388,6 +388,9 @@ func getLocalAddresses(c diam.Conn) ([]datatype.Address, error) {
 	hostIPs := strings.Split(addr, "/")
 	addresses := make([]datatype.Address, 0, len(hostIPs))
 	for _, ipStr := range hostIPs {
+		// An IPv6 endpoint is printed as [address]:port. (One with a zone,
+		// [address%zone], stays unparseable and is not advertised.)
+		ipStr = strings.TrimSuffix(strings.TrimPrefix(ipStr, "["), "]")
 		ip := net.ParseIP(ipStr)
 		if ip != nil {
 			if ip.IsLoopback() {
